@@ -480,6 +480,16 @@ func (e *Env) syncDeployment(k ObjKey) {
 	replicas := *d.Spec.Replicas
 	rolling := d.Spec.Strategy.Type == "" || d.Spec.Strategy.Type == appsv1.RollingUpdateDeploymentStrategyType
 	acted := false
+	// upstream getNewReplicaSet: an existing new ReplicaSet follows the Deployment's minReadySeconds (old ones do not)
+	if newRS != nil && !d.Spec.Paused && newRS.Spec.MinReadySeconds != d.Spec.MinReadySeconds {
+		newRS = newRS.DeepCopy() // the listed objects are the store's own snapshots
+		newRS.Spec.MinReadySeconds = d.Spec.MinReadySeconds
+		if err := e.h.Update(e.ctx, newRS); err != nil {
+			e.markDirty(k, e.delay())
+			return
+		}
+		acted = true
+	}
 
 	var active []*appsv1.ReplicaSet
 	for _, rs := range rss {
